@@ -88,6 +88,7 @@ class World:
         self.order = []          # device names in spec order
         self.generated = []      # leaf parts in creation order (per run)
         self.items = []          # what the sources generated (parts and batches), in creation order
+        self.gate_log = []       # (gate, id(leaf part), verdict) at every evaluation of a gate predicate
         self.maintainer = None
         self.monitors = []
         self.events = 0
@@ -212,7 +213,14 @@ def build(world):
                 fn = lambda gate, part: True
             else:
                 fn = lambda gate, part: False
-            obj = DecisionGate(name, up, decider_override=fn)
+            def logged(gate, part, fn=fn, key=key):
+                # the verdict is logged at the moment the gate is asked (the part may change afterwards, e.g. in a rework loop)
+                v = fn(gate, part)
+                if not world.probe_depth:
+                    for leaf in leaves(part):
+                        world.gate_log.append((key, id(leaf), bool(v)))
+                return v
+            obj = DecisionGate(name, up, decider_override=logged)
             obj.pred = fn
         elif k == 'batcher':
             obj = PartBatcher(name, up, output_batch_size=d.get('size'))
@@ -1623,11 +1631,15 @@ class RoutingMon(Monitor):
                         stack.append(nm)
                         ctx.goal('entered_group')
                     if k == 'gate':
-                        ctx.require(bool(w.dev[nm].pred(w.dev[nm], part)), 'part passed a gate whose predicate rejects it', nm)
                         ctx.goal('passed_gate')
                     if k in ('handler', 'proc', 'buffer', 'sink', 'batcher'):
                         slots.append(nm)
                     prev = nm
+                # every passage through a gate is backed by its own accepting evaluation of the predicate at that moment
+                for g in {nm for nm in hist if kind.get(nm) == 'gate'}:
+                    accepted = sum(1 for (gn, pid, v) in w.gate_log if gn == g and pid == id(part) and v)
+                    ctx.require(hist.count(g) <= accepted, 'part passed a gate whose predicate rejects it',
+                                f'{g}: {hist.count(g)} passages, {accepted} accepting evaluations')
                 ctx.require(slots == self.visits.get(id(part), []),
                             'routing history != devices that actually received the part (gap or leftover of a refused hand-over)',
                             f'part #{part.idx}: history {hist} visits {self.visits.get(id(part), [])}')
